@@ -28,7 +28,10 @@ ASSUMPTIONS = [
 
 COLS = ["tb.id", "tb.n", "tb.s", "tb.t"]
 IDX = {"tb.id": 0, "tb.n": 1, "tb.s": 2, "tb.t": 3, "id": 0, "n": 1, "s": 2, "t": 3}
-STATIC = ["tb.n = tb.id", "tb.s = tb.t", "tb.n IS NULL", "1", "tb.n < tb.id", "tb.s IS NOT NULL"]
+STATIC = ["tb.n = tb.id", "tb.s = tb.t", "tb.n IS NULL", "1", "tb.n < tb.id", "tb.s IS NOT NULL",
+          # static SQL text with literals whose blanks matter (the text is the caller's: it goes to the database verbatim)
+          "tb.s = 'x  y'", "tb.t = 'a\tb'", "tb.s != 'p\u00a0q'", "tb.s   =   'x y'", "(tb.t = 'a b'\n  OR tb.t = 'x  y')"]
+BLANK_VALUES = ["x  y", "x y", "a\tb", "a b", "p\u00a0q", "p q"]
 MARK = "~#"
 
 
@@ -103,6 +106,16 @@ def eval_static(text, row):
         return cmp("<", n, i)
     if text == "tb.s IS NOT NULL":
         return s is not None
+    if text == "tb.s = 'x  y'":
+        return cmp("=", s, "x  y")
+    if text == "tb.t = 'a\tb'":
+        return cmp("=", t, "a\tb")
+    if text == "tb.s != 'p\u00a0q'":
+        return cmp("!=", s, "p\u00a0q")
+    if text == "tb.s   =   'x y'":
+        return cmp("=", s, "x y")
+    if text == "(tb.t = 'a b'\n  OR tb.t = 'x  y')":
+        return t_or([cmp("=", t, "a b"), cmp("=", t, "x  y")])
     raise AssertionError(text)
 
 
@@ -233,6 +246,10 @@ def make_conn(real, log, percent):
             self.c = real.cursor()
 
         def execute(self, sql, params=()):
+            if getattr(log, "fail_next", False):
+                # a transient failure of the database (another connection holds the lock)
+                log.fail_next = False
+                raise sqlite3.OperationalError("database is locked")
             log.calls.append((sql, list(params)))
             if percent:
                 sql = sql.replace("%s", "?")
@@ -298,6 +315,9 @@ def evaluate(case):
         raised = None
         try:
             args = [to_arg(M, c) for c in conds]
+            if case.get("lock_once"):
+                log.fail_next = True
+                notes.add("database_locked_at_first_attempt")
             if entry.startswith("T_"):
                 if entry.startswith("T_wrap"):
                     # SqlMethodT around an existing SqlMethod (which carries the default order)
@@ -356,6 +376,12 @@ def evaluate(case):
         except ValueError as e:
             raised = e
         except Exception as e:   # noqa
+            if case.get("lock_once") and isinstance(e, sqlite3.OperationalError) and "locked" in str(e):
+                # the failure reached the caller, who simply asks again
+                real.close()
+                o2 = evaluate(dict(case, lock_once=False))
+                o2.classes = sorted(set(o2.classes) | notes)
+                return o2
             f.append(("query_raises_%s" % type(e).__name__, f"{e}; sql={log.calls[-1:] if log.calls else None}"))
             return Outcome(True, sorted(notes), f)
         # rows
@@ -417,7 +443,7 @@ KEYWORD_VALUES = ["IS NULL", "is null", "IS NOT NULL", "is not null", "Is Null",
 
 
 def st_str():
-    return st.sampled_from(KEYWORD_VALUES) | st.sampled_from(STR_BODIES).map(lambda b: b + MARK) | st.sampled_from(STR_BODIES).map(lambda b: MARK + b) \
+    return st.sampled_from(KEYWORD_VALUES) | st.sampled_from(BLANK_VALUES) | st.sampled_from(STR_BODIES).map(lambda b: b + MARK) | st.sampled_from(STR_BODIES).map(lambda b: MARK + b) \
         | st.text("abAB%_' ", max_size=4).map(lambda b: b + MARK)
 
 
@@ -526,7 +552,8 @@ def st_case(draw, max_conds=4, with_kwargs=True):
                                            "T_one", "T_wrap_oon", "all_interleaved", "all_interleaved"])),
             "percent": draw(st.integers(0, 3)) == 0,
             "poison": draw(st.none() | st.none() | st.tuples(st.integers(0, 3), st.integers(0, 2)).map(list)),
-            "prior": draw(st.sampled_from([None, None, "asc", "desc", "n"]))}
+            "prior": draw(st.sampled_from([None, None, "asc", "desc", "n"])),
+            "lock_once": draw(st.integers(0, 5)) == 0}
 
 
 def parts(tier):
